@@ -141,6 +141,24 @@ def result_local_validated(fn, fail_blk, stmt, call):
     return False
 
 
+def outcome_observed(fn, fail_blk, eff_pos, call):
+    """`n = map.size(); map.erase(it); if(map.size() == n) return -1;` - the failing return depends on a query of the very object the
+    call changed, made after the call: it reports the outcome of the call, it does not reject an argument"""
+    obj = call.get('obj')
+    if call.get('k') == 'CXXOperatorCallExpr' and call.get('a'):
+        obj = call['a'][0]
+    if obj is None:
+        return False
+    target = show(strip(obj))
+    for e in fn.cfg.dominating_edges(fail_blk):
+        if e['kind'] != 'branch' or not (e['block'] == eff_pos[0] or fn.cfg.stmt_before(eff_pos, (e['block'], 0))):
+            continue
+        for y in calls_in(e['cond']):
+            if y.get('obj') is not None and show(strip(y['obj'])) == target and show(y) != show(call):
+                return True
+    return False
+
+
 def r1_function(facts, mut, fn, obls, rule, label, visited, depth=0):
     rets = failure_returns(fn)
     fails = [(b, j, st) for b, j, st, k in rets if k == 'fail']
@@ -160,7 +178,7 @@ def r1_function(facts, mut, fn, obls, rule, label, visited, depth=0):
         for fb, fj, fst in fails:
             if not fn.cfg.stmt_before((eb, ej), (fb, fj)):
                 continue
-            if call is not None and (callee_validated(fn, fb, call, sd) or result_local_validated(fn, fb, est, call)):
+            if call is not None and (callee_validated(fn, fb, call, sd) or result_local_validated(fn, fb, est, call) or outcome_observed(fn, fb, (eb, ej), call)):
                 moved = True
                 continue
             bad.append(fst['loc'].rsplit(':', 1)[1])
@@ -191,7 +209,7 @@ def r1_inside(facts, mut, fn, obls, rule, label, visited, depth):
         bad = []
         for fb, fj, fst in fails:
             if fn.cfg.stmt_before((eb, ej), (fb, fj)):
-                if call is not None and (callee_validated(fn, fb, call, sd) or result_local_validated(fn, fb, est, call)):
+                if call is not None and (callee_validated(fn, fb, call, sd) or result_local_validated(fn, fb, est, call) or outcome_observed(fn, fb, (eb, ej), call)):
                     continue
                 bad.append(fst['loc'].rsplit(':', 1)[1])
         obls.append(Obl(rule, fn.name, what, est['loc'], 'finding' if bad else 'discharged',
